@@ -8,6 +8,7 @@ mod scen;
 mod tport;
 mod trace;
 mod mmio;
+mod falloc;
 
 
 pub struct Ctx { pub tier_thorough: bool, pub seed: u64, pub rng: rng::Rng, pub tr: trace::Trace, pub release: bool }
